@@ -49,8 +49,51 @@ def _loc(new: ast.AST, old: ast.AST) -> ast.AST:
     return ast.fix_missing_locations(new)
 
 
+def _tuple_target(comp):
+    """N12: `for t in enumerate(X)` / `zip(A, B)` with t only used as t[0] / t[1] -> `for t0, t1 in ...`"""
+    for g in comp.generators:
+        it = g.iter
+        if not (isinstance(g.target, ast.Name) and isinstance(it, ast.Call) and isinstance(it.func, ast.Name)
+                and it.func.id in ("enumerate", "zip")):
+            continue
+        arity = 2 if it.func.id == "enumerate" else len(it.args)
+        t = g.target.id
+        uses = [n for n in ast.walk(comp) if isinstance(n, ast.Name) and n.id == t and isinstance(n.ctx, ast.Load)]
+        subs = [n for n in ast.walk(comp) if isinstance(n, ast.Subscript) and isinstance(n.value, ast.Name) and n.value.id == t
+                and isinstance(n.slice, ast.Constant) and isinstance(n.slice.value, int) and 0 <= n.slice.value < arity
+                and isinstance(n.ctx, ast.Load)]
+        if not uses or len(uses) != len(subs):
+            continue
+        names = [f"{t}_{i}" for i in range(arity)]
+        if any(nm in {x.id for x in ast.walk(comp) if isinstance(x, ast.Name)} for nm in names):
+            continue
+
+        class R(ast.NodeTransformer):
+            def visit_Subscript(self, n):
+                if isinstance(n.value, ast.Name) and n.value.id == t and isinstance(n.slice, ast.Constant) and isinstance(n.ctx, ast.Load):
+                    return ast.copy_location(ast.Name(id=names[n.slice.value], ctx=ast.Load()), n)
+                self.generic_visit(n)
+                return n
+        g.target = ast.copy_location(ast.Tuple(elts=[ast.Name(id=nm, ctx=ast.Store()) for nm in names], ctx=ast.Store()), g.target)
+        if isinstance(comp, ast.DictComp):
+            comp.key, comp.value = R().visit(comp.key), R().visit(comp.value)
+        else:
+            comp.elt = R().visit(comp.elt)
+        for g2 in comp.generators:
+            g2.ifs = [R().visit(c) for c in g2.ifs]
+    return comp
+
+
 class _Expr(ast.NodeTransformer):
-    """expression-level rewrites N3 N4 N5 N8"""
+    """expression-level rewrites N3 N4 N5 N8 N12"""
+
+    def visit_ListComp(self, n):
+        self.generic_visit(n)
+        return ast.fix_missing_locations(_tuple_target(n))
+
+    def visit_GeneratorExp(self, n):
+        self.generic_visit(n)
+        return ast.fix_missing_locations(_tuple_target(n))
 
     def visit_Call(self, n: ast.Call):
         self.generic_visit(n)
